@@ -8,8 +8,74 @@ SEED = [0]
 def jobs(tier):
     from checks import c15
     m = ("strict",)
-    front = [(c15.unit_auto_dispatch, ())]
+    front = [(c15.unit_auto_dispatch, ()), (unit_error_rendering, ())]
     return D.g_pump(("strict", "warn")) + D.g_region(m, tier) + D.g_leaf(m, deep=2, types=["UINT8", "UINT16", "UINT32", "UINT64", "INT8", "INT16", "INT32", "INT64", "TPM_ST", "TPM_CC", "TPMI_YES_NO"]) + D.g_crosscheck(tier, SEED[0], only_frames=True) + D.g_dispatch(("strict",)) + front
+
+
+def unit_error_rendering():
+    """the remaining-bytes attribute of a constraint error is observed by the caller *after* the error travelled up - possibly
+    after it was logged or printed.  For every error class: rendering it (str, repr, format, traceback text) does not touch the
+    attribute - a live iterator stays unread, bytes stay the same bytes - and leaves every other attribute as it was"""
+    import traceback
+    import tpmstream.common.error as E
+    from pyvc.harness import UnitResult
+    from tpmstream.common.constraints import SizeConstraint, ValueConstraint
+    from tpmstream.common.path import Path, PathNode
+    from tpmstream.spec.common.values import ValidValues
+    from tpmstream.spec.structures.base_types import UINT16
+
+    u = UnitResult("C13/ERRORS")
+    u.functions = ["tpmstream.common.error:*"]
+    path = Path((PathNode(""), PathNode("f")))
+
+    class Src:
+        def __init__(self, data):
+            self.data, self.n = data, 0
+
+        def __iter__(self):
+            return self
+
+        def __next__(self):
+            if self.n >= len(self.data):
+                raise StopIteration
+            self.n += 1
+            return self.data[self.n - 1]
+
+    def mk():
+        sc = SizeConstraint()
+        sc.constraint_path, sc.size_max, sc.size_already = path, 4, 2
+        vc = ValueConstraint(constraint_path=path, tpm_type=UINT16, valid_values=ValidValues(range(0, 4)))
+        return {"value": E.ValueConstraintViolatedError(vc, UINT16(0x42)), "exceeded": E.SizeConstraintExceededError(sc, violator_path=path, exceeded_by=1),
+                "anticipated": E.AnticipatedSizeConstraintExceededError(sc, violator_path=path, violator_value=9, exceeded_by=1), "subceeded": E.SizeConstraintSubceededError(sc)}
+
+    for name in mk():
+        for kind in ("iterator", "bytes"):
+            e = mk()[name]
+            rest = bytes([1, 2, 3, 0xFF])
+            src = Src(rest) if kind == "iterator" else rest
+            e.set_bytes_remaining(src)
+            before = {k: v for k, v in vars(e).items() if k != "bytes_remaining"}
+            bad = []
+            for how, f in (("str", str), ("repr", repr), ("format", lambda x: f"{x}"), ("traceback", lambda x: "".join(traceback.format_exception_only(type(x), x)))):
+                try:
+                    f(e)
+                except Exception as ex:  # noqa
+                    bad.append(f"{how}() raised {type(ex).__name__}: {ex}")
+                if kind == "iterator" and src.n != 0:
+                    bad.append(f"{how}() read {src.n} byte(s) from the live input")
+                    break
+            after = {k: v for k, v in vars(e).items() if k != "bytes_remaining"}
+            if set(before) != set(after) or any(before[k] is not after[k] for k in before):
+                bad.append("rendering changed the error's attributes")
+            try:
+                got = bytes(e.bytes_remaining)
+            except Exception as ex:  # noqa
+                got = f"{type(ex).__name__}: {ex}"
+            if got != rest:
+                bad.append(f"bytes(error.bytes_remaining) after rendering = {got!r}, the unread input is {rest!r}")
+            u.obligations.append({"name": f"C13/ERRORS/{name}/{kind}/rendering-leaves-the-remaining-bytes-and-the-details-alone", "kind": "post", "site": "common/error.py", "status": "refuted" if bad else "proved",
+                                  "backend": "evaluation", "seconds": 0, "model": None, "detail": "; ".join(bad[:3])})
+    return u
 
 
 def keep(name, ob):
